@@ -29,6 +29,35 @@ def explicit(tier, seed):
         i += 1
 
 
+def explicit2(tier, seed):
+    yield from explicit(tier, seed)
+    # several operations with EQUAL container payloads, each updated in place by the workflow after delivery: every later delivery
+    # (of the same or of another operation) must still be what was recorded
+    import random
+
+    rng = random.Random(seed + 41)
+    for j in range(10 if tier == "quick" else 100):
+        val = rng.choice([[], {}, [1, 2], {"items": ["book"], "total": 1}, [[]], {"a": {}}])
+        units = []
+        for u in range(rng.randrange(2, 5)):
+            kind = rng.choice(["step", "step", "child", "wfc"])
+            if kind == "step":
+                units.append({"k": "step", "val": val, "mutate": True, "serdes": rng.choice([None, None, "json"])})
+            elif kind == "child":
+                units.append({"k": "child", "body": [{"k": "step", "val": val, "mutate": True}, {"k": "step", "val": val, "mutate": True}]})
+            else:
+                units.append({"k": "wfc", "init": val, "checks": [{"do": "ok", "fn": "mutate" if isinstance(val, (list,)) or isinstance(val, dict) else "inc"}],
+                              "decisions": [("cont", 1), ("stop",)]})
+            if rng.random() < 0.5:
+                units.append({"k": "wait", "s": 1})
+        body = units + [{"k": "wait", "s": 1}, {"k": "step", "val": val, "mutate": True}, {"k": "wait", "s": 1}, {"k": "step", "val": "end"}]
+        if j % 3 == 0:
+            body = [{"k": "par", "branches": [{"body": body}, {"body": [{"k": "step", "val": val, "mutate": True}, {"k": "wait", "s": 2}, {"k": "step", "val": val}]}],
+                     "cfg": {"preset": "all_completed"}}]
+        yield {"label": "equal-payloads-mutated-in-place", "prog": {"body": body}, "prog_seed": 25500 + j,
+               "pattern": {"p": "crash_enum", "max_points": 8} if j % 3 == 1 else {"p": "plain"}}
+
+
 SPEC = Spec(
     PROP,
     level="fault_enumeration",
@@ -36,14 +65,14 @@ SPEC = Spec(
     compare_final=True,
     gen={"kinds": ["step", "step", "wait", "cb", "wfcb", "invoke", "wfc", "child", "par", "map", "fstep", "fstep", "rstep", "fwfc"]},
     rule="deterministic random programs (values from the default serializer's exact domain, try/except by class around failing "
-    "steps/conditions, nested child contexts, map/parallel) x {uninterrupted with random pagination, every single crash point of a "
+    "steps/conditions, nested child contexts, map/parallel, several operations with equal container payloads that the workflow updates in place after delivery) x {uninterrupted with random pagination, every single crash point of a "
     "small-program corpus, random multi-crash, asynchronous SIGKILL}; oracle 1: every ret/exc delivered for one program position is "
     "identical (type-tagged canonical value / exception class+message) in every invocation; oracle 2: the final (status, result | "
     "error type+message) of each interrupted run equals that of the uninterrupted reference run of the same program on the real SDK "
     "(runs that interrupted an at-most-once step are excluded from oracle 2 only). Non-trivial = a completed operation was delivered "
     "again in a later invocation. A class = (program shape hash, interruption pattern, crash landing event kind).",
     deciding=replayed_delivery,
-    explicit=explicit,
+    explicit=explicit2,
     minima={"c02_deliveries": 500},
 )
 cases = SPEC.cases
